@@ -77,6 +77,9 @@ def execute(line):
         a, b = mk(f[2], unwire(f[3])), mk(f[4], unwire(f[5]))
         out = guarded(lambda: a + b, _obj)
         extra["a_after"], extra["b_after"] = wire(a), wire(b)
+        # concatenation joins the stored sequences: the same expression under lsb0 gives the same object
+        with options(lsb0=True):
+            extra["under_lsb0"] = guarded(lambda: mk(f[2], unwire(f[3])) + mk(f[4], unwire(f[5])), _obj)
     elif op == "addp":
         a, b = mk(f[2], unwire(f[3])), _prom(f[4], unwire(f[5]))
         out = guarded(lambda: a + b, _obj)
@@ -135,6 +138,8 @@ def oracle(line, out, extra):
     for k in ("self_after", "a_after"):
         if k in extra and extra[k] != f[3]:
             return f"operand changed: {f[3]} -> {extra[k]}"
+    if "under_lsb0" in extra and extra["under_lsb0"] != exp:
+        return f"the same concatenation under lsb0 gives {extra['under_lsb0']} instead of {exp}"
     if "again" in extra and extra["again"] != exp:
         return f"evaluating the same expression again gives {extra['again']} instead of {exp}"
     if "b_reparsed" in extra and extra["b_reparsed"] != "ok " + f[5]:
@@ -185,6 +190,10 @@ def gen(rng, tier):
             yield SEP.join(["C01", "slice", cls, wire(bits), sv(pick()), sv(pick()), sv(st)])
             yield SEP.join(["C01", "index", cls, wire(bits), str(rng.choice([0, -1, n - 1, n, -n, -n - 1, rng.randint(-n, n - 1)]))])
         yield SEP.join(["C01", "seq", rng.choice(CLASS_NAMES), wire(bits)])
+    # iteration / len / bool at block-size lengths (a blockwise iterator shows only at exact multiples of its block)
+    for n in [256, 512, 1024, 2048, 4095, 4096, 4097, 8192, 12288] + ([16384, 65536] if big else []):
+        for cls in (CLASS_NAMES if n in (4096, 8192) else [rng.choice(CLASS_NAMES)]):
+            yield SEP.join(["C01", "seq", cls, wire(rand_bits(rng, n))])
     # concatenation: class pairs x relative lengths
     for ca in CLASS_NAMES:
         for cb in CLASS_NAMES:
